@@ -61,7 +61,7 @@ def mon_c10(k, domain, server_ips, bind_port=None, ns_ip=None, wildcard=False, p
         if who == "srv" and kw.get("cause") in skip:
             continue
         is_srv = who == "srv"
-        to_resolver = is_srv and bind_port and kw["dst"] == ("127.0.0.1", bind_port)
+        to_resolver = is_srv and ((bind_port and kw["dst"] == ("127.0.0.1", bind_port)) or kw["dst"] == ("208.67.222.222", 53))
         expect_qr = 0 if (not is_srv or to_resolver) else 1
         stats["c10_messages"] += 1
         info, problems = dnsstrict.check(d, expect_qr=expect_qr)
